@@ -133,6 +133,9 @@ type repSpec struct {
 	Cuts []int `json:"cuts"`
 	// Mode: "live" (leader: isReplaying=false, waiters registered),
 	// "follower-replay" (clean store, everything isReplaying=true, no waiters),
+	// "install" (a running follower that applied [0,C1) installs the checkpoint
+	// another replica took at C2 >= C1 - Restore without process restart - and
+	// applies the rest live),
 	// "restore" (live until C2 with a checkpoint taken after entry C1; then
 	// process restart, Restore(checkpoint C1), entries (C1,C2] replayed with
 	// isReplaying=true and no waiters, the rest live).
@@ -150,6 +153,7 @@ type repResult struct {
 	Err      string // harness-level failure (open/backup/restore): inconclusive
 	Batches  int
 	Restarts int
+	Installs int
 	// real clock (UnixNano) right before the first and right after the last apply
 	ApplyStart, ApplyEnd int64
 }
@@ -276,6 +280,68 @@ func runReplica(scratch string, cs *c07Case, sp repSpec) (res repResult) {
 		if !run(sp.C1, sp.C2, true, false) {
 			return
 		}
+		if !run(sp.C2, n, false, true) {
+			return
+		}
+	case "install":
+		// a running follower that got as far as C1 installs the checkpoint another
+		// replica took at C2 >= C1 (Restore WITHOUT process restart) and continues
+		src, err := Open(Opts{Engine: sp.Engine, ExpirePolicy: cs.Policy, Dir: dir + "-src", UseRedisV2: cs.V2})
+		if err != nil {
+			res.Err = "open source: " + err.Error()
+			return
+		}
+		srcDone := false
+		defer func() {
+			if !srcDone {
+				src.Abandon()
+			}
+		}()
+		for start := 0; start < sp.C2; {
+			end := sp.C2
+			for _, c := range sp.Cuts {
+				if c > start {
+					if c < end {
+						end = c
+					}
+					break
+				}
+			}
+			if _, pmsg := applyGuard(src, cs.entries(start, end), false, false); pmsg != "" {
+				res.PanicAt, res.PanicMsg = start, pmsg
+				return
+			}
+			start = end
+		}
+		bi := src.DB().Backup(1, uint64(sp.C2))
+		for try := 0; bi == nil && try < 200; try++ {
+			time.Sleep(time.Millisecond)
+			bi = src.DB().Backup(1, uint64(sp.C2))
+		}
+		if bi == nil {
+			res.Err = "backup refused"
+			return
+		}
+		bi.WaitReady()
+		if _, berr := bi.GetResult(); berr != nil {
+			res.Err = "backup: " + berr.Error()
+			return
+		}
+		if !run(0, sp.C1, false, true) {
+			return
+		}
+		ck := rockredis.GetCheckpointDir(1, uint64(sp.C2))
+		if err := copyDir(filepath.Join(src.DB().GetBackupDir(), ck), filepath.Join(l.DB().GetBackupDir(), ck)); err != nil {
+			res.Err = "fetch checkpoint: " + err.Error()
+			return
+		}
+		if err := l.DB().Restore(1, uint64(sp.C2)); err != nil {
+			res.Err = "restore: " + err.Error()
+			return
+		}
+		res.Installs++
+		src.Destroy()
+		srcDone = true
 		if !run(sp.C2, n, false, true) {
 			return
 		}
@@ -922,10 +988,17 @@ func c07Specs(r *rand.Rand, cs *c07Case, forced []int) []repSpec {
 		{Name: "R1", Engine: "mem", Cuts: withForced(nil, forced, n), Mode: "live"},
 		{Name: "R2", Engine: "pebble", Cuts: withForced(cutsRandom(r, n), forced, n), Mode: "live"},
 	}
-	if r.Intn(2) == 0 && n >= 3 {
+	if w := r.Intn(3); w == 0 && n >= 3 {
 		c1 := 1 + r.Intn(n-1)
 		c2 := c1 + r.Intn(n-c1+1)
 		specs = append(specs, repSpec{Name: "R3", Engine: "pebble", Cuts: withForced(cutsRandom(r, n), forced, n, c1, c2), Mode: "restore", C1: c1, C2: c2})
+	} else if w == 1 && n >= 3 {
+		c1 := r.Intn(n)
+		c2 := c1 + r.Intn(n-c1+1)
+		if c2 == 0 {
+			c2 = 1
+		}
+		specs = append(specs, repSpec{Name: "R3", Engine: "pebble", Cuts: withForced(cutsRandom(r, n), forced, n, c1, c2), Mode: "install", C1: c1, C2: c2})
 	} else {
 		specs = append(specs, repSpec{Name: "R3", Engine: "mem", Cuts: withForced(cutsRandom(r, n), forced, n), Mode: "follower-replay"})
 	}
@@ -1187,11 +1260,20 @@ func shrinkCase(scratch string, cs *c07Case, specs []repSpec, kind string) (*c07
 					continue
 				}
 				sp.Cuts = removeFromCuts(sp.Cuts, start, chunk, n)
-				if sp.Mode == "restore" {
+				if sp.Mode == "restore" || sp.Mode == "install" {
 					sp.C1 = removeIdx(sp.C1, start, chunk)
 					sp.C2 = removeIdx(sp.C2, start, chunk)
-					if sp.C1 < 1 {
+					if sp.C1 < 1 && sp.Mode == "restore" {
 						sp.C1 = 1
+					}
+					if sp.C2 < 1 {
+						sp.C2 = 1
+					}
+					if sp.C2 > n {
+						sp.C2 = n
+					}
+					if sp.C1 > sp.C2 {
+						sp.C1 = sp.C2
 					}
 					if sp.C2 < sp.C1 {
 						sp.C2 = sp.C1
@@ -1322,7 +1404,7 @@ func runC07(c *vc.Ctx) error {
 	QuietLogs(c.Scratch)
 	c.Ev.Rule = "case = random log of ~60 single-command entries from the E3 generator (all write families, tiny adversarial key/member/int pools, " +
 		"adversarially close log timestamps days away from real time) executed on replicas R0 (mem, 1 entry per apply batch), R1 (mem, maximal batches), " +
-		"R2 (pebble, random partition), R3 (checkpoint+restart+replay with isReplaying, or clean follower replay without waiters), R4/R5 (R0/R2 re-executed >=2.6 s later); " +
+		"R2 (pebble, random partition), R3 (checkpoint+restart+replay with isReplaying, or a running follower installing another replica's checkpoint, or clean follower replay without waiters), R4/R5 (R0/R2 re-executed >=2.6 s later); " +
 		"1/4 of the logs (by seed) are live-clock logs: log timestamps = real clock at execution, setup + 2 s TTLs on every type in log second S, ~35 generator commands on those keys still in second S (before the expiry by log time), ~25 in second S+3 (after it), " +
 		"phase-1 replicas must finish before the expiry instant on the real clock (else excluded/retimed), delayed replicas start after it; such logs are compared on replies and engine content (also mem vs pebble), not on wall-clock filtered reads; " +
 		"replies per request id, logical dumps (all), raw dumps (within engine type; not under local_deletion) must be equal. " +
@@ -1494,6 +1576,7 @@ func runC07(c *vc.Ctx) error {
 				c.Ev.Count("replica_executions", 1)
 				c.Ev.Count("apply_batches", int64(res.Batches))
 				c.Ev.Count("restarts_with_checkpoint_restore", int64(res.Restarts))
+				c.Ev.Count("running_follower_installs_of_another_replicas_checkpoint", int64(res.Installs))
 				if sp.Mode == "follower-replay" {
 					c.Ev.Count("follower_replays_without_waiters", 1)
 				}
